@@ -4,7 +4,7 @@
 // observation is (returned value | thrown error name, log of every externally visible effect).
 const vm = require('vm')
 
-const METHOD_NAMES = new Set(['trim', 'concat', 'substring', 'toUpperCase', 'aloneMethod', 'cantAloneMethod', 'slice', 'replace', 'stringSubstring'])
+const METHOD_NAMES = new Set(['trim', 'concat', 'substring', 'toUpperCase', 'aloneMethod', 'cantAloneMethod', 'slice', 'replace', 'stringSubstring', 'replaceAll', 'padEnd', 'padStart', 'repeat'])
 
 class World {
   constructor () { this.log = []; this.labels = new WeakMap(); this.n = 0 }
